@@ -48,6 +48,9 @@ CLAIMS = {
  'C18': dict(technique="runtime monitoring: table of std helpers in compiled wrappers executed by vsim over all input values, compared online with one-line integer definitions; CRC checked against bitwise polynomial division",
              text="Exploration: 39 helpers x widths 1..13 / list lengths 1..6 / batch sizes x all input values (<=10 input bits) + constant-operand instances; BitwiseCrc 3 polynomials x 1..4 bits per step.",
              ref="2 C18"),
+ 'C17': dict(technique="runtime monitoring: seeded type compositions compiled into round-trip entities executed by vsim over all bit patterns; an independent recursive layout calculator is the oracle for every leaf offset",
+             text="Exploration: random compositions (arrays, nested/inherited/templated records, enums, fixed point, Serialized container, BitField) nesting <=3; all bit patterns for widths <=12; to_bits/from_bits identities and per-leaf offsets.",
+             ref="2 C17"),
  'C13': dict(technique="runtime monitoring: fresh interpreter per creation order with post-hoc assertions on identity / issubclass / isinstance of the lazily created classes and on view write-through; nested views in emitted logic executed by vsim",
              text="Exploration: seeded creation orders (widths 1..40, arrays, 4 qualifiers, 3 directions) in fresh processes; random nested view chains as read sources and write targets of compiled entities.",
              ref="2 C13"),
